@@ -1101,7 +1101,12 @@ impl QueryRouter {
 
                 Expr::Value(Value::Placeholder(placeholder)) => {
                     match placeholder.replace('$', "").parse::<i16>() {
-                        Ok(placeholder) => result.push(ShardingKey::Placeholder(placeholder)),
+                        // Only a placeholder compared with the sharding key column is a key.
+                        Ok(placeholder) => {
+                            if found {
+                                result.push(ShardingKey::Placeholder(placeholder))
+                            }
+                        }
                         Err(_) => {
                             debug!(
                                 "Prepared statement didn't have integer placeholders: {}",
